@@ -34,4 +34,6 @@ class AbsmaxOptimizer(SymmetricOptimizer):
             dim = list(range(1, base.ndim)) if (axis == 0) else list(range(0, base.ndim - 1))
             rmax = torch.amax(torch.abs(base), dim=dim, keepdim=True)
         qmax = 2 ** (bits - 1) - 1
-        return rmax / qmax
+        scale = rmax / qmax
+        # A null range would produce a null scale, hence NaN when dividing by it: any scale fits all-zero values
+        return torch.where(scale == 0, torch.ones_like(scale), scale)
